@@ -165,6 +165,17 @@ theorem applyPlans_isCoord (sz : String → Nat) : ∀ (ps : List Plan) (v : Var
     simp only [applyPlans, List.foldl_cons]
     exact (applyPlans_isCoord sz ps _).trans (applyPlan_isCoord sz p v)
 
+theorem applyPlans_extra (sz : String → Nat) : ∀ (ps : List Plan) (v : Var),
+    (applyPlans sz ps v).extra = v.extra
+  | [], _ => rfl
+  | p :: ps, v => by
+    simp only [applyPlans, List.foldl_cons]
+    exact (applyPlans_extra sz ps _).trans (applyPlan_extra sz p v)
+
+theorem floorVar_extra (sz : String → Nat) (ns : List String) (dd : String) (ex v : Var) :
+    (floorVar sz ns dd ex v).extra = v.extra := by
+  unfold floorVar; split <;> rfl
+
 /-- the structural assumptions carry over to the normalised dataset -/
 theorem floorReady_normOut (kb : Bool) (ddims : List String) (ds : Dataset) (coords : List String)
     (pd dts : Option Bool) (h : FloorReady kb ddims ds) : FloorReady kb ddims (normOut ds coords pd dts) := by
